@@ -260,7 +260,9 @@ class C03(core.Check):
         out = [pad + b["type"].upper()]
         for k, item in b["items"]:
             kind = item[0]
-            if kind == "attr":
+            if kind == "attr" and len(item) > 3 and item[3] == "istring":
+                out.append(pad + "  " + k.upper() + " " + item[2])  # "text"i is ONE lexeme: written as the value itself
+            elif kind == "attr":
                 out.append(pad + "  " + k.upper() + " " + " ".join((q + t + q) if c == "Q" else t for c, t in item[1]))
             elif kind == "block":
                 out += self.render(item[1], q, ind + 1)
